@@ -1,13 +1,16 @@
 /-
 C06 helper lemmas, part C2: printing a number (`Value.Syntax` + `format.Node`, and
 `MarshalJSON`) and reading the text back gives the same number.
-Core Lean (`Rat` is core); single Mathlib modules may be imported here if really needed.
+Core Lean (`Rat` is core); the lemmas about digits, the reading functions and the acceptance of
+the printed shapes by C09's model of `literal.ParseNum` are in Proofs/NumValPrintAux.lean.
 -/
 import CueVerif.Model.NumVal
 import CueVerif.Spec.Arith
 import CueVerif.Proofs.NumLit
+import CueVerif.Proofs.NumValPrintAux
 namespace CueVerif.Proofs.NumValPrint
 open CueVerif CueVerif.Arith CueVerif.NumVal CueVerif.Spec.Arith
+open CueVerif.Proofs.NumValPrintAux
 
 /-- numbers whose printed form reads back with the same kind: ints with exponent 0 (every int
 literal, every int result of up to 34 digits); floats inside the exponent window -/
@@ -17,18 +20,49 @@ def PrintRegular (n : Num) : Prop :=
   | .float => -maxExp ≤ adjExp n.d ∧ adjExp n.d ≤ maxExp ∧ -maxExp ≤ n.d.exp ∧
       (Dec.numDigits n.d.coeff.natAbs : Int) ≤ maxExp
 
-/-- reading back the decimal digits of a natural number -/
-theorem horner_digitsOf (n : Nat) : horner 10 (digitsOf n) = n := by sorry
+theorem window_of_regular (c x : Int) (h : PrintRegular ⟨.float, ⟨c, x⟩⟩) : Window c.natAbs x := by
+  simpa [PrintRegular, adjExp, Window] using h
 
-theorem digitsOf_length (n : Nat) : (digitsOf n).length = Dec.numDigits n := by sorry
+/-- reading back the decimal digits of a natural number -/
+theorem horner_digitsOf (n : Nat) : horner 10 (digitsOf n) = n :=
+  NumValPrintAux.horner_digitsOf n
+
+theorem digitsOf_length (n : Nat) : (digitsOf n).length = Dec.numDigits n :=
+  NumValPrintAux.digitsOf_length n
 
 /-- CUE text → same kind and value -/
 theorem print_parse (n : Num) (h : PrintRegular n) :
-    ∃ n', readBack (printNum n) = .ok n' ∧ n'.k = n.k ∧ toRat n'.d = toRat n.d := by sorry
+    ∃ n', readBack (printNum n) = .ok n' ∧ n'.k = n.k ∧ toRat n'.d = toRat n.d := by
+  obtain ⟨k, ⟨c, x⟩⟩ := n
+  cases k with
+  | int =>
+    have hx : x = 0 := h
+    subst hx
+    have hp : printNum ⟨.int, ⟨c, 0⟩⟩ =
+        if c < 0 then 45 :: digitsOf c.natAbs else digitsOf c.natAbs := fmtG_exp0 101 c
+    rw [hp]
+    refine ⟨_, signed_back c _ _ (NumValPrintAux.lit_int c.natAbs), ?_, ?_⟩
+    · rw [signed_kind]
+    · exact signed_toRat c 0 _ rfl
+  | float =>
+    have hw := window_of_regular c x h
+    obtain ⟨B, hB, hsh⟩ := fmtG_shape 101 c x
+    obtain ⟨n0, hl, hk, hv⟩ := float_core 101 c.natAbs x (Or.inl rfl) hw B hsh
+    rw [printNum_float c x B hB]
+    refine ⟨_, signed_back c _ n0 hl, ?_, ?_⟩
+    · rw [signed_kind]; exact hk
+    · exact signed_toRat c x n0 hv
 
 /-- JSON text read as CUE → same value (JSON has no int/float distinction) -/
 theorem json_parse (n : Num) (h : PrintRegular ⟨.float, n.d⟩) :
-    ∃ n', readBack (jsonNum n) = .ok n' ∧ toRat n'.d = toRat n.d := by sorry
+    ∃ n', readBack (jsonNum n) = .ok n' ∧ toRat n'.d = toRat n.d := by
+  obtain ⟨k, ⟨c, x⟩⟩ := n
+  have hw := window_of_regular c x h
+  obtain ⟨B, hB, hsh⟩ := fmtG_shape 69 c x
+  obtain ⟨n0, hl, hv⟩ := json_core 69 c.natAbs x (Or.inr rfl) hw B hsh
+  simp only [jsonNum]
+  rw [hB]
+  exact ⟨_, signed_back c _ n0 hl, signed_toRat c x n0 hv⟩
 
 /-- the full statement (every number in the window) is false: an int with a positive exponent,
 such as the exact product `10000000000000000000 * 10000000000000000000`, prints as `1e+38`
@@ -38,6 +72,31 @@ def print_parse_stmt : Prop :=
       (Dec.numDigits n.d.coeff.natAbs : Int) ≤ maxExp) →
     ∃ n', readBack (printNum n) = .ok n' ∧ n'.k = n.k ∧ toRat n'.d = toRat n.d
 
-theorem print_parse_false : ¬ print_parse_stmt := by sorry
+theorem print_parse_false : ¬ print_parse_stmt := by
+  intro h
+  obtain ⟨n', h1, h2, -⟩ := h ⟨.int, ⟨1, 38⟩⟩ (by decide)
+  have hr : readBack (printNum ⟨.int, ⟨1, 38⟩⟩) = .ok ⟨.float, ⟨1, 38⟩⟩ := by decide
+  rw [hr] at h1
+  injection h1 with h1
+  subst h1
+  cases h2
+
+/-! ### tests (evaluation on samples; NOT the property) -/
+
+-- `-1.5`, `0.00015`, `1.5e+7`, `0e-3000` (float), `12` (int), `12.0` (float 12e0), JSON `1.5E+7`
+example : printNum ⟨.float, ⟨-15, -1⟩⟩ = [45, 49, 46, 53] := by decide
+example : printNum ⟨.float, ⟨15, -5⟩⟩ = [48, 46, 48, 48, 48, 49, 53] := by decide
+example : printNum ⟨.float, ⟨15, 6⟩⟩ = [49, 46, 53, 101, 43, 55] := by decide
+example : printNum ⟨.float, ⟨0, -3000⟩⟩ = [48, 101, 45, 51, 48, 48, 48] := by decide
+example : printNum ⟨.int, ⟨12, 0⟩⟩ = [49, 50] ∧ printNum ⟨.float, ⟨12, 0⟩⟩ = [49, 50, 46, 48] := by
+  decide
+example : jsonNum ⟨.float, ⟨15, 6⟩⟩ = [49, 46, 53, 69, 43, 55] := by decide
+-- the hypothesis of `print_parse` is satisfiable in each of these regions
+example : PrintRegular ⟨.float, ⟨-15, -1⟩⟩ ∧ PrintRegular ⟨.float, ⟨15, -5⟩⟩ ∧
+    PrintRegular ⟨.float, ⟨15, 6⟩⟩ ∧ PrintRegular ⟨.float, ⟨0, -3000⟩⟩ ∧
+    PrintRegular ⟨.int, ⟨12, 0⟩⟩ := by
+  simp only [PrintRegular]; decide
+example : readBack (printNum ⟨.float, ⟨-15, -1⟩⟩) = .ok ⟨.float, ⟨-15, -1⟩⟩ := by decide
+example : readBack (printNum ⟨.float, ⟨12, 0⟩⟩) = .ok ⟨.float, ⟨120, -1⟩⟩ := by decide
 
 end CueVerif.Proofs.NumValPrint
